@@ -1,5 +1,5 @@
 """Property -> rules mapping."""
-from .rules import cfg, det, fmtdec, fmtparse, hdr, hyg, rawid
+from .rules import cfg, det, errsel, fmtdec, fmtparse, hdr, hyg, idx, rawid
 
 PROPS = {}
 
@@ -93,3 +93,5 @@ prop("C02", [fmtdec.rule_tpl_verb, fmtdec.rule_binder_align, fmtdec.rule_pointer
 
 prop("C04", [fmtdec.rule_guard_use, fmtdec.rule_traversal, fmtdec.rule_lookup_agreement], meta={"explanation": "wip"})
 prop("C07", [fmtdec.rule_shared_reject, fmtdec.rule_shared_decision, fmtdec.rule_lookup_agreement], meta={"explanation": "wip"})
+
+prop("C09", [idx.rule_idx_space, errsel.rule_view_defs, errsel.rule_error_selection], meta={"explanation": "wip"})
